@@ -12,13 +12,15 @@ C20 — Blank fields mean 'missing' and padding never influences the result.
   documented static trees names a live, context-free field of its layout — the outputs cannot depend on anything else.
 * `field_locality` — for each of the 13 fixed-size record layouts, the value at a field depends only on that field's bytes.
 
-Line records (the µs stamp is rebased on the ms stamp's date), the attitude / data-quality records (counts declared in the
-file) and the volume directory: by the oracle (padding rewritten
+`padding_inert_counted_records` (attitude: only the count and the n points; data quality: the fixed fields and the first n
+entries of the two tables — unused slots, trailing blanks, preamble are inert) and `padding_inert_volume_directory` (the
+file-pointer records are inert).  Line records (the µs stamp is rebased on the ms stamp's date): by the oracle (padding rewritten
 with random content of its class, bit-exact tree fingerprints) — not by a theorem.  `bool(-1) = True` for blank flag columns is
 exempt by the property's own wording.
 -/
 import Alos2.Proofs.Typing
 import Alos2.Proofs.Typing2
+import Alos2.Proofs.Padding2
 
 namespace Alos2.C20
 
@@ -57,6 +59,31 @@ theorem padding_inert_leader_records (ctx ctx' : Ctx) (bs bs' : Bytes) (pos : Na
    fun h h' hl => record5_padding_inert ctx ctx' bs bs' pos v v' e e' h h' hl,
    fun h h' hl => platform_position_padding_inert ctx ctx' bs bs' pos v v' e e' h h' hl,
    fun h h' hl => map_projection_padding_inert ctx ctx' bs bs' pos v v' e e' h h' hl⟩
+
+/-- records whose layout depends on a count declared in the file: only the count field and the entries actually present
+    matter — the trailing blanks (of whatever declared length), the unused table slots and the preamble do not -/
+theorem padding_inert_counted_records (ctx ctx' : Ctx) (bs bs' : Bytes) (pos : Nat) (v v' : Val) (e e' : Nat) (n : Nat) :
+    (parse Gen.attitudeRecord ctx bs pos = .ok (v, e) → parse Gen.attitudeRecord ctx' bs' pos = .ok (v', e') →
+      v.getPath ["number_of_points"] = some (.leaf (.int n)) →
+      slice bs (pos + 12) (pos + 16 + 120 * n) = slice bs' (pos + 12) (pos + 16 + 120 * n) →
+      transformAttitude realLeafFns2 v.toPVal = transformAttitude realLeafFns2 v'.toPVal) ∧
+    (parse Gen.dataQualitySummaryRecord ctx bs pos = .ok (v, e) → parse Gen.dataQualitySummaryRecord ctx' bs' pos = .ok (v', e') →
+      v.getPath ["number_of_channels"] = some (.leaf (.int n)) →
+      slice bs (pos + 12) (pos + 222 + 32 * n) = slice bs' (pos + 12) (pos + 222 + 32 * n) →
+      slice bs (pos + 734) (pos + 830 + 32 * n) = slice bs' (pos + 734) (pos + 830 + 32 * n) →
+      transformDataQualitySummary v.toPVal = transformDataQualitySummary v'.toPVal) :=
+  ⟨fun h h' hn hw => attitude_padding_inert ctx ctx' bs bs' pos v v' e e' n h h' hn hw,
+   fun h h' hn hw1 hw2 => data_quality_padding_inert ctx ctx' bs bs' pos v v' e e' n h h' hn hw1 hw2⟩
+
+/-- volume directory: the root attributes depend only on the volume descriptor and the text record; the k file-pointer
+    records in between are inert -/
+theorem padding_inert_volume_directory (ctx ctx' : Ctx) (bs bs' : Bytes) (pos : Nat) (v v' : Val) (e e' : Nat) (k : Nat)
+    (h : parse Gen.volumeDirectoryRecord ctx bs pos = .ok (v, e)) (h' : parse Gen.volumeDirectoryRecord ctx' bs' pos = .ok (v', e'))
+    (hk : v.getPath ["volume_descriptor", "number_of_file_pointer_records"] = some (.leaf (.int k)))
+    (hw1 : slice bs pos (pos + 360) = slice bs' pos (pos + 360))
+    (hw2 : slice bs (pos + 360 * (k + 1)) (pos + 360 * (k + 2)) = slice bs' (pos + 360 * (k + 1)) (pos + 360 * (k + 2))) :
+    transformVolumeRecord realLeafFns v.toPVal = transformVolumeRecord realLeafFns v'.toPVal :=
+  volume_directory_padding_inert ctx ctx' bs bs' pos v v' e e' k h h' hk hw1 hw2
 
 theorem live_fields_only2 :
     pathsCovered (Spec.platformPosition.leaves.flatMap Sym.paths) Gen.platformPositionRecord = true ∧
